@@ -1,7 +1,166 @@
 // Kani harnesses for minijinja/src/compiler/ast.rs (included under cfg(kani)).
 #![allow(unused_imports)]
 use super::*;
+use crate::value::ValueRepr;
 use crate::verif_common::*;
+
+/// "same value" for the scalar alphabet used here, decided on the representation
+/// (no call into Value::eq, which is itself under test elsewhere).
+fn same_scalar(a: &Value, b: &Value) -> bool {
+    match (&a.0, &b.0) {
+        (ValueRepr::None, ValueRepr::None) => true,
+        (ValueRepr::Bool(x), ValueRepr::Bool(y)) => x == y,
+        (ValueRepr::I64(x), ValueRepr::I64(y)) => x == y,
+        (ValueRepr::SmallStr(x), ValueRepr::SmallStr(y)) => x.as_str().len() == y.as_str().len() && x.as_str().as_bytes().first() == y.as_str().as_bytes().first(),
+        _ => false,
+    }
+}
+
+/// left operands: 0 none, 1 false, 2 true, 3 "", 4 "a"
+fn left_operand(k: u8) -> (Value, bool) {
+    match k {
+        0 => (Value::from(()), false),
+        1 => (Value::from(false), false),
+        2 => (Value::from(true), true),
+        3 => (Value::from(""), false),
+        _ => (Value::from("a"), true),
+    }
+}
+
+/// The VM's semantics (JumpIfFalseOrPop / JumpIfTrueOrPop): `a and b` is a if a is falsy else b,
+/// `a or b` is a if a is truthy else b.
+macro_rules! sc_harness {
+    ($name:ident, $op:expr, $is_and:expr, $lk:expr) => {
+        #[kani::proof]
+        #[kani::unwind(4)]
+        #[kani::stub(alloc::fmt::format, crate::verif_common::format_stub)]
+        fn $name() {
+            let (l, l_truthy) = left_operand($lk);
+            let x: i64 = kani::any();
+            let r = Value::from(x);
+            let folded = eval_binop($op, &l, &r);
+            assert!(folded.is_some());
+            let want = if $is_and { if l_truthy { &r } else { &l } } else if l_truthy { &l } else { &r };
+            assert!(same_scalar(folded.as_ref().unwrap(), want));
+            // and symmetric: a number on the left, the fixed operand on the right
+            let folded2 = eval_binop($op, &r, &l);
+            let r_truthy = x != 0;
+            let want2 = if $is_and { if r_truthy { &l } else { &r } } else if r_truthy { &r } else { &l };
+            assert!(folded2.is_some());
+            assert!(same_scalar(folded2.as_ref().unwrap(), want2));
+            kani::cover!(x == 0);
+            kani::cover!(x != 0);
+            core::mem::forget((folded, folded2, l, r));
+        }
+    };
+}
+
+// @verif-block props=C04 tier=quick cap=400 group=core doc=constant_folding_of_`and`/`or`_(ast::eval_binop)_equals_the_VM's_short-circuit_semantics_(result_is_the_deciding_OPERAND,_not_a_boolean)_for_the_listed_fixed_operand_{none,false,true,"","a"}_against_ANY_i64,_in_both_operand_orders
+sc_harness!(c04_fold_and_none, BinOpKind::ScAnd, true, 0);
+sc_harness!(c04_fold_and_false, BinOpKind::ScAnd, true, 1);
+sc_harness!(c04_fold_and_true, BinOpKind::ScAnd, true, 2);
+sc_harness!(c04_fold_and_empty, BinOpKind::ScAnd, true, 3);
+sc_harness!(c04_fold_and_str, BinOpKind::ScAnd, true, 4);
+sc_harness!(c04_fold_or_none, BinOpKind::ScOr, false, 0);
+sc_harness!(c04_fold_or_false, BinOpKind::ScOr, false, 1);
+sc_harness!(c04_fold_or_true, BinOpKind::ScOr, false, 2);
+sc_harness!(c04_fold_or_empty, BinOpKind::ScOr, false, 3);
+sc_harness!(c04_fold_or_str, BinOpKind::ScOr, false, 4);
+// @verif-end
+
+macro_rules! delegate_harness {
+    ($name:ident, $op:expr, $f:path) => {
+        #[kani::proof]
+        #[kani::unwind(4)]
+        #[kani::stub(alloc::fmt::format, crate::verif_common::format_stub)]
+        fn $name() {
+            let x: i64 = kani::any();
+            let y: i64 = kani::any();
+            let (l, r) = (Value::from(x), Value::from(y));
+            let folded = eval_binop($op, &l, &r);
+            let runtime = $f(&l, &r);
+            // a constant expression is folded exactly when the run-time operator succeeds, to the same
+            // value; when it would fail (e.g. division by zero) nothing is folded and no error is
+            // raised at load time - code generation then emits the run-time instruction
+            match (&folded, &runtime) {
+                (Some(a), Ok(b)) => {
+                    let same = match (&a.0, &b.0) {
+                        (ValueRepr::I64(p), ValueRepr::I64(q)) => p == q,
+                        (ValueRepr::I128(p), ValueRepr::I128(q)) => ({ p.0 }) == ({ q.0 }),
+                        (ValueRepr::F64(p), ValueRepr::F64(q)) => p.to_bits() == q.to_bits(),
+                        _ => false,
+                    };
+                    assert!(same);
+                }
+                (None, Err(_)) => {}
+                _ => assert!(false),
+            }
+            kani::cover!(folded.is_some());
+            kani::cover!(folded.is_none());
+            core::mem::forget((folded, runtime, l, r));
+        }
+    };
+}
+
+// @verif-block props=C04 tier=thorough cap=3600 group=core doc=constant_folding_of_a_delegated_operator_(ast::eval_binop)_on_ANY_pair_of_i64_literals:_folded_<=>_the_run-time_operator_succeeds,_with_the_identical_value;_a_failing_constant_expression_(division_by_zero,_negative_power)_is_not_folded_and_raises_nothing_at_load_time
+delegate_harness!(c04_fold_add, BinOpKind::Add, ops::add);
+delegate_harness!(c04_fold_sub, BinOpKind::Sub, ops::sub);
+delegate_harness!(c04_fold_floordiv, BinOpKind::FloorDiv, ops::int_div);
+delegate_harness!(c04_fold_rem, BinOpKind::Rem, ops::rem);
+// @verif-end
+
+macro_rules! div_zero_harness {
+    ($name:ident, $op:expr) => {
+        #[kani::proof]
+        #[kani::unwind(4)]
+        #[kani::stub(alloc::fmt::format, crate::verif_common::format_stub)]
+        #[kani::stub(crate::value::ops::failed_op, crate::verif_common::op_error_stub)]
+        fn $name() {
+            let x: i64 = kani::any();
+            let (l, r) = (Value::from(x), Value::from(0i64));
+            // a failing constant expression is not folded and raises nothing at load time
+            let folded = eval_binop($op, &l, &r);
+            assert!(folded.is_none());
+            kani::cover!(x < 0);
+            core::mem::forget((folded, l, r));
+        }
+    };
+}
+
+// @verif-block props=C04 tier=thorough cap=3600 group=core doc=a_constant_division_(//,_%)_of_ANY_i64_literal_by_the_literal_0_is_NOT_folded_and_does_not_fail_or_panic_at_load_time_(the_error_is_left_to_the_run-time_instruction,_i.e._reported_only_if_executed)
+div_zero_harness!(c04_fold_floordiv_by_zero, BinOpKind::FloorDiv);
+div_zero_harness!(c04_fold_rem_by_zero, BinOpKind::Rem);
+// @verif-end
+
+macro_rules! compare_harness {
+    ($name:ident, $bop:expr, $cop:expr, $rel:tt) => {
+        #[kani::proof]
+        #[kani::unwind(4)]
+        #[kani::stub(alloc::fmt::format, crate::verif_common::format_stub)]
+        fn $name() {
+            let x: i64 = kani::any();
+            let y: i64 = kani::any();
+            let (l, r) = (Value::from(x), Value::from(y));
+            let a = eval_binop($bop, &l, &r);
+            let b = eval_compare($cop, &l, &r);
+            let want = x $rel y;
+            assert!(matches!(a, Some(ref v) if matches!(v.0, ValueRepr::Bool(t) if t == want)));
+            assert!(matches!(b, Some(ref v) if matches!(v.0, ValueRepr::Bool(t) if t == want)));
+            kani::cover!(want);
+            kani::cover!(!want);
+            core::mem::forget((a, b, l, r));
+        }
+    };
+}
+
+// @verif-block props=C04 tier=quick cap=400 group=core doc=constant_folding_of_a_comparison_(eval_binop_and_the_chain_kernel_eval_compare)_on_ANY_pair_of_i64_literals_is_the_mathematical_relation
+compare_harness!(c04_fold_lt, BinOpKind::Lt, CompareOpKind::Lt, <);
+compare_harness!(c04_fold_lte, BinOpKind::Lte, CompareOpKind::Lte, <=);
+compare_harness!(c04_fold_eq, BinOpKind::Eq, CompareOpKind::Eq, ==);
+compare_harness!(c04_fold_ne, BinOpKind::Ne, CompareOpKind::Ne, !=);
+compare_harness!(c04_fold_gt, BinOpKind::Gt, CompareOpKind::Gt, >); // tier=thorough
+compare_harness!(c04_fold_gte, BinOpKind::Gte, CompareOpKind::Gte, >=); // tier=thorough
+// @verif-end
 
 #[cfg(test)]
 mod playback {
